@@ -131,6 +131,14 @@ func build(root string, tree []entry, fl flags) map[string]string {
 			// generated files without a template whose names are related to ok1.templ's (longer, shorter, sorted
 			// directly before or after it): orphans like any other
 			put(j(e.kind), staleGo, t0)
+		case "empty.templ":
+			put(j("empty.templ"), "", t0)
+		case "blank.templ":
+			put(j("blank.templ"), "\n\t \n", t0)
+		case "onlypackage.templ":
+			put(j("onlypackage.templ"), "package x\n", t0)
+		case "empty_templ.go(stale)":
+			put(j("empty_templ.go"), staleGo, t0.Add(-time.Hour))
 		case "other.go":
 			put(j("other.go"), otherGo, t0)
 		case "notes.txt":
@@ -461,6 +469,13 @@ func treesAndConfigs(thorough bool) ([][]entry, []cfg) {
 			sd := filepath.Join(d, sub)
 			trees = append(trees, []entry{{"ok1.templ", d}, {"orphan_templ.go", sd}}, []entry{{"ok1.templ", d}, {"ok1_templ.go(stale)", sd}}, []entry{{"ok1.templ", d}, {"ok2.templ", sd}, {"ok1_extra_templ.go", sd}})
 		}
+	}
+	// templates that hold nothing (a new file, a file that was emptied): still one generated file each
+	for _, d := range []string{"", "a", "vendor"} {
+		for _, k := range []string{"empty.templ", "blank.templ", "onlypackage.templ"} {
+			trees = append(trees, []entry{{k, d}}, []entry{{k, d}, {"ok1.templ", d}}, []entry{{k, d}, {"bad.templ", "a"}})
+		}
+		trees = append(trees, []entry{{"empty.templ", d}, {"empty_templ.go(stale)", d}}, []entry{{"empty.templ", d}, {"empty_templ.go(stale)", d}, {"ok1.templ", d}})
 	}
 	for _, d := range []string{"", "a", "vendor"} {
 		for _, k := range []string{"epoch.templ", "pre-epoch.templ"} {
